@@ -23,6 +23,15 @@ func init() {
 				Quick: 150, Thorough: 4000},
 		}
 	}
+	machineByID[8] = func() Machine { return &cuckooRedis{} }
+	for _, p := range []string{"C02", "C13", "C14"} {
+		registry[p] = append(registry[p], Suite{Name: "cuckoo-redis", NewMachine: func() Machine { return &cuckooRedis{} }, Gen: genCuckoo(p),
+			Monitors: []Monitor{monitorCuckoo("redis", p)}, OpName: cuckooOpName, Nontrivial: ckNontrivial,
+			Rule: "as cuckoo-mem, against the Redis-backed filter on miniredis", Quick: 60, Thorough: 1500})
+	}
+	registry["C09"] = append(registry["C09"], Suite{Name: "cuckoo-redis", NewMachine: cuckooRedisGen.mk, Gen: genC09(cuckooRedisGen),
+		Monitors: []Monitor{monitorPersist(cuckooRedisGen, "C09")}, OpName: cuckooOpName,
+		Rule: "re-attachment of a Redis-backed cuckoo filter at a random point, operations through either handle", Quick: 40, Thorough: 1000})
 	registry["C02"] = append(registry["C02"], Suite{Name: "murmur", NewMachine: func() Machine { return &withCodec{genericMachine: &cuckooMem{}} }, Gen: genMurmur,
 		OpName: cuckooOpName, Rule: "murmur3 model vs getHash on random strings of every length 0..48", Quick: 20, Thorough: 400})
 
